@@ -157,7 +157,7 @@ Proof.
   assert (Mk : forall s' f', ss_chunk s' = ss_chunk s -> ss_tell s' = rf_pos f' -> rf_data f' = rf_data f ->
                  RI (rf_data f) (Nat.min (rf_pos f') L) (ss_buf s') -> SI f' s').
   { intros s' f' H1 H2 H3 H4. unfold SI. rewrite H3, H1. auto. }
-  destruct op as [d| |n|[lim|]|[|hint]| | | |off wh| | | |ds]; cbn [ref_pre] in Pre; try discriminate.
+  destruct op as [d| |n|[lim|]|[|hint]| | | |off wh| | | |ds|]; cbn [ref_pre] in Pre; try discriminate.
   - (* write *)
     cbn [ss_step0 ref_step fst snd]. apply Nat.eqb_eq in Pre.
     destruct (ss_write_spec f s d (conj V (conj Ch (conj T I))) Pre Val) as [W1 W2].
@@ -299,6 +299,9 @@ Proof.
   - (* writelines *)
     cbn [ss_step0 ref_step fst snd]. apply Nat.eqb_eq in Pre.
     destruct (ss_writelines_spec ds f s (conj V (conj Ch (conj T I))) Pre Val) as [W1 [W2 _]]. auto.
+  - (* rollover() / fileno() *)
+    cbn [ss_step0 ref_step fst snd].
+    destruct (ss_rollover_spec f s (conj V (conj Ch (conj T I)))) as [R1 R2]. auto.
 Qed.
 
 Lemma ss_step_ref f s op :
@@ -322,7 +325,7 @@ Lemma ref_step_data f op : ref_pre KString f op = true ->
   match op with Write d => rf_data f ++ d | WriteLines ds => rf_data f ++ concat ds | _ => rf_data f end.
 Proof.
   intro Pre.
-  destruct op as [d| |[n|]|[n|]|hint| | | |off wh| | | |ds]; cbn [ref_step fst rf_data advance]; try reflexivity.
+  destruct op as [d| |[n|]|[n|]|hint| | | |off wh| | | |ds|]; cbn [ref_step fst rf_data advance]; try reflexivity.
   - cbn in Pre. apply Nat.eqb_eq in Pre. now rewrite (write_at_end f d Pre).
   - destruct (take_line (rest f)); reflexivity.
   - destruct (seek_target f off wh <? 0)%Z; reflexivity.
